@@ -54,6 +54,8 @@ def mark_obligations(text: str) -> Tuple[str, List[str]]:
     def rep(m):
         ids.append(m.group(1))
         return '/*@ob %s*/' % m.group(1)
+    for m in re.finditer(r'/\*@ob\s+(C\d\d\.[A-Za-z0-9_.\-]+(?:\|C\d\d)*)\s*\*/', text):
+        ids.append(m.group(1))
     out = re.sub(r'\[(C\d\d\.[A-Za-z0-9_.\-]+(?:\|C\d\d)*)\]', rep, text)
     return '/*@blk*/' + out + '/*@endblk*/', ids
 
@@ -198,6 +200,8 @@ class FileSplicer:
 
         # ---- loops
         nloops = len(an.loops)
+        whilelets = {int(s.args[0]) for s in subs if s.word == 'whilelet'}
+        midtexts = {}; headtexts = {}
         for s in subs:
             if s.word == 'shape':
                 for a_ in s.args:
@@ -210,6 +214,13 @@ class FileSplicer:
                     raise SpliceError('lost anchor: fn %s loop %d (has %d)' % (key, li, nloops))
                 L = an.loops[li]
                 t, ids = mark_obligations(s.text); clause_ids += ids
+                if what == 'mid':
+                    # only for loops normalised by `whilelet`: ghost text after the scrutinee has been evaluated
+                    midtexts.setdefault(li, []).append(t)
+                    continue
+                if what == 'head' and li in whilelets:
+                    headtexts.setdefault(li, []).append(t)
+                    continue
                 if what == 'spec':
                     self.ed.insert(src.t(L.body_open).start, '\n' + t + '\n')
                 elif what == 'head':
@@ -265,6 +276,21 @@ class FileSplicer:
                                 self.ed.insert(src.t(e).end, ' ' + ' '.join('%s = vx_t.%d;' % (v, i) for i, v in enumerate(var)) + ' break; }'); applied.append('N5')
                     q += 1
 
+        # ---- N8: `while let PAT = E { B }` -> `loop <spec> { <head> let vx_w = E; if let PAT = vx_w { <mid> B } else { break; } }`
+        for li in sorted(whilelets):
+            if li >= nloops or an.loops[li].kind != 'while' or not src.is_id(an.loops[li].kw_si + 1, 'let'):
+                raise SpliceError('lost anchor: fn %s loop %d is not a `while let`' % (key, li))
+            L = an.loops[li]
+            q = L.kw_si + 2
+            while not src.is_p(q, '='): q = src.skip_group(q)
+            pat_txt = src.text_of(L.kw_si + 2, q)
+            scrut = self.ed.apply(self.text, src.t(q + 1).start, src.t(L.body_open - 1).end)
+            self.ed.drop_range(src.t(q + 1).start, src.t(L.body_open - 1).end)
+            self.ed.replace(src.t(L.kw_si).start, src.t(L.body_open - 1).end, 'loop')
+            self.ed.insert(src.t(L.body_open).end, '\n' + '\n'.join(headtexts.get(li, [])) + '\nlet vx_w = ' + scrut + ';\nif let ' + pat_txt + ' = vx_w {\n' + '\n'.join(midtexts.get(li, [])) + '\n')
+            self.ed.insert(src.t(L.body_close).start, '\n} else { break; }\n')
+            applied.append('N8')
+
         # ---- N16: `?` desugar
         qs = [k for k in range(it.body_open, it.body_close) if src.is_p(k, '?')]
         for s in subs:
@@ -280,7 +306,9 @@ class FileSplicer:
                         q = qs[qi]
                         st = self.postfix_start(q - 1)
                         self.ed.insert(src.t(st).start, 'match ')
-                        self.ed.replace(src.t(q).start, src.t(q).end, ' { Ok(vx_v) => vx_v, Err(vx_e) => return Err(From::from(vx_e)) }')
+                        gt, gids = mark_obligations(s.text) if s.text.strip() else ('', [])
+                        clause_ids += gids
+                        self.ed.replace(src.t(q).start, src.t(q).end, ' { Ok(vx_v) => vx_v, Err(vx_e) => { %s return Err(From::from(vx_e)) } }' % gt)
                         applied.append('N16')
 
         # ---- N20: `fn f(mut self, ..) { B }` -> `fn f(self, ..) { let mut vx_self = self; B[self := vx_self] }`
@@ -593,9 +621,13 @@ class FileSplicer:
         for k in range(it.body_open, it.body_close):
             if src.is_p(k, '.') and src.is_id(k + 1, 'await'):
                 callee = None
-                if src.is_p(k - 1, ')'):
-                    o = src.match(k - 1)
+                q = k - 1
+                while src.is_p(q, ')'):
+                    o = src.match(q)
                     if src.is_id(o - 1): callee = src.t(o - 1).text
+                    if callee == 'instrument' and src.is_p(o - 2, '.'):
+                        q = o - 3; continue       # `F(..).instrument(span).await`: the awaited future is F(..)
+                    break
                 if callee in self.deasync_strip:
                     self.ed.delete(src.t(k).start, src.t(k + 1).end)
                 else:
@@ -970,7 +1002,11 @@ class FileSplicer:
                 for s in d.subs:
                     if s.word == 'tokens':
                         pat = pat_tokens(s.args[1])
-                        hits = find_token_seq(src, it.head_si, it.body_close if it.body_close >= 0 else it.head_si + 1, pat)
+                        end_si = it.body_close
+                        if end_si < 0:
+                            end_si = it.head_si
+                            while end_si < src.n() and src.t(end_si).start < it.hi: end_si += 1
+                        hits = find_token_seq(src, it.head_si, end_si, pat)
                         if not hits: raise SpliceError('lost anchor: item %s token pattern %r' % (name, s.args[1]))
                         for k in hits:
                             self.ed.replace(src.t(k).start, src.t(k + len(pat) - 1).end, s.args[2])
